@@ -13,6 +13,7 @@ def c01(repo, rep):
     G.r11_sir_sis(repo, rep, "Gillespie_SIR")
     G.rate_functions_rule(repo, rep)
     listdict.r12(repo, rep)
+    X.state_rule(repo, rep, modules=("simulation",), only_classes=("_ListDict_",))   # the candidate sets of one run are not those of the last
     X.markov_helper(repo, rep)
     C.r1(repo, rep, callers=T.SIR_EVENT + ["Gillespie_SIR"])
     S.r13(repo, rep)
@@ -42,6 +43,7 @@ def c02(repo, rep):
     G.r11_sir_sis(repo, rep, "Gillespie_SIS")
     G.rate_functions_rule(repo, rep)
     listdict.r12(repo, rep)
+    X.state_rule(repo, rep, modules=("simulation",), only_classes=("_ListDict_",))   # the candidate sets of one run are not those of the last
     C.r1(repo, rep, callers=T.SIS_EVENT + ["Gillespie_SIS"])
     S.r13(repo, rep)
     H.role_rule(repo, rep, "_process_trans_SIS_Markov", resched_required=True)
@@ -63,6 +65,7 @@ def c02(repo, rep):
 def c03(repo, rep):
     G.simple_contagion_rule(repo, rep)
     listdict.r12(repo, rep)
+    X.state_rule(repo, rep, modules=("simulation",), only_classes=("_ListDict_",))   # the candidate sets of one run are not those of the last
     with rep.keep("R9"):
         R.r9_generic(repo, rep, "Gillespie_simple_contagion")
     S.r17(repo, rep, funcs=["Gillespie_simple_contagion"])
@@ -90,6 +93,8 @@ def c04(repo, rep):
     with rep.keep("R11"):
         G.r11_sir_sis(repo, rep, "Gillespie_SIR")   # "one legal move": a stale or phantom I-S link fires a transmission onto a
         G.r11_sir_sis(repo, rep, "Gillespie_SIS")   # node that is not susceptible (also through a self-loop)
+    with rep.keep("HIST"):
+        M.transform_history_rule(repo, rep)          # with full data the rows are read off the rebuilt per-node histories
     with rep.keep("R12.I6"):
         listdict.r12(repo, rep)                      # "every simulator returns": an emptied weighted candidate set weighs 0,
                                                      # or the generic loops draw from an empty list at extinction
@@ -137,6 +142,8 @@ def c06(repo, rep):
     X.converted_before_use(repo, rep)
     X.pure_ic_rule(repo, rep)
     X.nodelist_order_rule(repo, rep)
+    O.r4s(repo, rep)
+    X.shared_value_rule(repo, rep, ["analytic"])   # per-degree / per-node series are separate objects
 
 
 def c09(repo, rep):
@@ -152,6 +159,8 @@ def c09(repo, rep):
     with rep.keep("H-guard"):
         H.sir_guards(repo, rep)
         H.sis_markov_guards(repo, rep)
+    with rep.keep("H-chain"):
+        H.sis_nonmarkov_rules(repo, rep)     # which attempts are queued decides which transmissions can be recorded
     with rep.keep("R11s.C09", "R11s"):
         G.simple_contagion_rule(repo, rep)
     with rep.keep("R11"):
@@ -271,17 +280,20 @@ def c14(repo, rep):
         M.r14(repo, rep)
     with rep.keep("RATE"):
         G.rate_functions_rule(repo, rep)
+    X.shared_value_rule(repo, rep, ["analytic"])   # per-degree / per-node series are separate objects
 
 
 def c15(repo, rep):
     G.complex_contagion_rule(repo, rep)
     listdict.r12(repo, rep)
+    X.state_rule(repo, rep, modules=("simulation",), only_classes=("_ListDict_",))   # the candidate sets of one run are not those of the last
     with rep.keep("R9"):
         R.r9_generic(repo, rep, "Gillespie_complex_contagion")
 
 
 def c16(repo, rep):
     listdict.r12(repo, rep)
+    X.state_rule(repo, rep, modules=("simulation",), only_classes=("_ListDict_",))   # the candidate sets of one run are not those of the last
     # "the total rate used for the clock equals the sum of current weights"
     with rep.keep("RATE"):
         G.rate_consistency_sir_sis(repo, rep, "Gillespie_SIR")
@@ -312,6 +324,7 @@ def c19(repo, rep):
     effects.r5(repo, rep)
     effects.r5d(repo, rep)
     X.state_rule(repo, rep)
+    X.shared_value_rule(repo, rep, ["analytic"])   # per-degree / per-node series are separate objects
 
 
 def c20(repo, rep):
